@@ -239,6 +239,11 @@ def run(ctx):
         table(ctx, R, 'SolarDay::get_hide_heaven_stem_day' + era, domc, cmd, cmd_orc, u'人元司令分野: classical per-month allotment counted from the Jie day, day index restarting at 0 in each allotment',
               lambda a: u'%s月(%s) 第%d日' % (jie_branch[a[0]], TERMS[a[0]], a[1]), fn_site(p, 'SolarDay::get_hide_heaven_stem_day'))
 
+    # ---- the two ends of the supported range
+    from rules import range_end as _re
+    _Ie = ctx.interp(fuel=50000000)
+    _re.c15_edge(ctx, _Ie, T(_Ie))
+
     ctx.assumptions.append('numeric layer replaced by oracles: civil date <-> day number (C01), term days (C05/C06), pillar (day number + 49) mod 60 (C07)')
     ctx.not_decided.append('on which civil days the anchoring terms fall and which days are 庚/丙/未 on the real calendar (numeric: C05/C06/C07)')
     return ('the real Nines / Dog-days / Plum-rains / pentad / commanding-stem code evaluated from the syntax tree on scenario calendars: every day of the window, '
